@@ -1,11 +1,986 @@
 package main
 
+// Replay of solver counterexamples on the real code: the model of a refuted obligation is turned
+// into concrete Go inputs, the real function is called through an in-package test injected with
+// `go test -overlay`, and the violated clause is evaluated on the concrete result (safety
+// obligations: the call must panic).
+
+import (
+	"context"
+	"encoding/json"
+	"fmt"
+	"go/types"
+	"math"
+	"math/big"
+	"os"
+	"os/exec"
+	"path/filepath"
+	"sort"
+	"strconv"
+	"strings"
+	"time"
+
+	"golang.org/x/tools/go/ssa"
+)
+
 type replayResult struct {
 	confirmed bool
 	log       string
 }
 
-// tryReplay replays a solver model on the real code (go test -overlay).
-func tryReplay(w *World, cfg runConfig, ob *Obligation) replayResult {
-	return replayResult{false, "replay generator: not available for this obligation kind yet\n"}
+const maxReplayLen = 256
+
+// ---- s-expression parsing of (get-value ...) output ------------------------------------------
+
+type sexp struct {
+	atom string
+	list []*sexp
 }
+
+func parseSexps(s string) []*sexp {
+	var out []*sexp
+	i := 0
+	var parse func() *sexp
+	skip := func() {
+		for i < len(s) && (s[i] == ' ' || s[i] == '\n' || s[i] == '\t' || s[i] == '\r') {
+			i++
+		}
+	}
+	parse = func() *sexp {
+		skip()
+		if i >= len(s) {
+			return nil
+		}
+		if s[i] == '(' {
+			i++
+			n := &sexp{list: []*sexp{}}
+			for {
+				skip()
+				if i >= len(s) {
+					return n
+				}
+				if s[i] == ')' {
+					i++
+					return n
+				}
+				c := parse()
+				if c == nil {
+					return n
+				}
+				n.list = append(n.list, c)
+			}
+		}
+		if s[i] == '"' {
+			j := i + 1
+			for j < len(s) && s[j] != '"' {
+				j++
+			}
+			a := s[i : j+1]
+			i = j + 1
+			return &sexp{atom: a}
+		}
+		if s[i] == '|' {
+			j := i + 1
+			for j < len(s) && s[j] != '|' {
+				j++
+			}
+			a := s[i : j+1]
+			i = j + 1
+			return &sexp{atom: a}
+		}
+		j := i
+		for j < len(s) && s[j] != ' ' && s[j] != '\n' && s[j] != '(' && s[j] != ')' && s[j] != '\t' {
+			j++
+		}
+		a := s[i:j]
+		i = j
+		return &sexp{atom: a}
+	}
+	for {
+		skip()
+		if i >= len(s) {
+			break
+		}
+		e := parse()
+		if e == nil {
+			break
+		}
+		out = append(out, e)
+	}
+	return out
+}
+
+func (e *sexp) String() string {
+	if e.list == nil {
+		return e.atom
+	}
+	var parts []string
+	for _, c := range e.list {
+		parts = append(parts, c.String())
+	}
+	return "(" + strings.Join(parts, " ") + ")"
+}
+
+// modelVal is a concrete value read from the model.
+type modelVal struct {
+	isInt  bool
+	i      *big.Int
+	isBool bool
+	b      bool
+	isFP   bool
+	bits   uint64
+	raw    string
+}
+
+func parseModelVal(e *sexp, bv bool) modelVal {
+	raw := e.String()
+	mv := modelVal{raw: raw}
+	if e.list == nil {
+		a := e.atom
+		switch {
+		case a == "true" || a == "false":
+			mv.isBool, mv.b = true, a == "true"
+		case strings.HasPrefix(a, "#x"):
+			v, ok := new(big.Int).SetString(a[2:], 16)
+			if ok {
+				if len(a) == 18 && v.Bit(63) == 1 {
+					v.Sub(v, new(big.Int).Lsh(big.NewInt(1), 64))
+				}
+				mv.isInt, mv.i = true, v
+			}
+		case strings.HasPrefix(a, "#b"):
+			v, ok := new(big.Int).SetString(a[2:], 2)
+			if ok {
+				mv.isInt, mv.i = true, v
+			}
+		default:
+			if v, ok := new(big.Int).SetString(a, 10); ok {
+				mv.isInt, mv.i = true, v
+			}
+		}
+		return mv
+	}
+	l := e.list
+	if len(l) == 2 && l[0].atom == "-" {
+		inner := parseModelVal(l[1], bv)
+		if inner.isInt {
+			mv.isInt, mv.i = true, new(big.Int).Neg(inner.i)
+		}
+		return mv
+	}
+	if len(l) == 4 && l[0].atom == "fp" {
+		s := parseModelVal(l[1], bv)
+		ex := parseModelVal(l[2], bv)
+		m := parseModelVal(l[3], bv)
+		if s.isInt && ex.isInt && m.isInt {
+			mv.isFP = true
+			mv.bits = s.i.Uint64()<<63 | ex.i.Uint64()<<52 | m.i.Uint64()
+		}
+		return mv
+	}
+	if len(l) >= 3 && l[0].atom == "_" {
+		switch l[1].atom {
+		case "+zero":
+			mv.isFP, mv.bits = true, 0
+		case "-zero":
+			mv.isFP, mv.bits = true, 1<<63
+		case "+oo":
+			mv.isFP, mv.bits = true, math.Float64bits(math.Inf(1))
+		case "-oo":
+			mv.isFP, mv.bits = true, math.Float64bits(math.Inf(-1))
+		case "NaN":
+			mv.isFP, mv.bits = true, math.Float64bits(math.NaN())
+		}
+		if strings.HasPrefix(l[1].atom, "bv") {
+			if v, ok := new(big.Int).SetString(l[1].atom[2:], 10); ok {
+				mv.isInt, mv.i = true, v
+			}
+		}
+	}
+	return mv
+}
+
+// ---- model access --------------------------------------------------------------------------------
+
+type modelReader struct {
+	ob     *Obligation
+	x      *Exec
+	dir    string
+	cache  map[*Term]modelVal
+	log    *strings.Builder
+	failed bool
+	runs   int
+	mode   string
+}
+
+// smallScope: every slice/string reachable from the parameters (through pointers to structs, in
+// the entry heap) has length at most 6.
+func (x *Exec) smallScope(fn *ssa.Function) []*Term {
+	c := x.c
+	var out []*Term
+	var walk func(v Value, t types.Type, depth int)
+	walk = func(v Value, t types.Type, depth int) {
+		if depth > 3 {
+			return
+		}
+		defer func() { recover() }()
+		switch u := t.Underlying().(type) {
+		case *types.Basic:
+			if s, ok := v.(StrV); ok {
+				out = append(out, c.Le(s.Len, c.Int(6)))
+			}
+		case *types.Slice:
+			if s, ok := v.(SliceV); ok {
+				out = append(out, c.Le(s.Len, c.Int(6)))
+			}
+		case *types.Struct:
+			if sv, ok := v.(StructV); ok {
+				for k := 0; k < u.NumFields(); k++ {
+					walk(sv.F[k], u.Field(k).Type(), depth+1)
+				}
+			}
+		case *types.Pointer:
+			if p, ok := v.(PtrV); ok && p.Kind == PRef && replayableType(u.Elem(), 0) {
+				walk(x.loadPtr(x.entry, p, u.Elem()), u.Elem(), depth+1)
+			}
+		}
+	}
+	for _, p := range fn.Params {
+		walk(x.regs[p], p.Type(), 0)
+	}
+	return out
+}
+
+// values queries the solver for the values of the given terms (one solver run).
+func (m *modelReader) values(ts []*Term) bool {
+	var need []*Term
+	seen := map[*Term]bool{}
+	for _, t := range ts {
+		if _, ok := m.cache[t]; !ok && !seen[t] {
+			seen[t] = true
+			need = append(need, t)
+		}
+	}
+	if len(need) == 0 {
+		return true
+	}
+	if m.runs >= 24 {
+		fmt.Fprintf(m.log, "model too large to read back within the budget of 24 solver runs\n")
+		m.failed = true
+		return false
+	}
+	// always ask for everything known so far as well: one consistent model per run
+	all := append([]*Term{}, need...)
+	for t := range m.cache {
+		all = append(all, t)
+	}
+	sort.Slice(all, func(i, j int) bool { return all[i].id < all[j].id })
+	m.ob.GetValues = all
+	if m.mode == "" {
+		m.mode = "small"
+	}
+	var r solveResult
+	var file string
+	for {
+		genMu.Lock()
+		text := m.ob.smtText(true, m.mode)
+		genMu.Unlock()
+		m.runs++
+		file = filepath.Join(m.dir, sanitize(m.ob.Name)+fmt.Sprintf(".model%d.smt2", m.runs))
+		if err := os.WriteFile(file, []byte(text), 0o644); err != nil {
+			m.failed = true
+			return false
+		}
+		r = runSolver(context.Background(), solvers[0], file, 30000)
+		if r.verdict == "sat" {
+			break
+		}
+		if m.mode == "small" {
+			// no counterexample in the small scope: fall back to the unconstrained query
+			fmt.Fprintf(m.log, "small-scope model query: %s; falling back to the unconstrained model\n", r.verdict)
+			m.mode = m.ob.SatMode
+			if m.mode == "" {
+				m.mode = "ground"
+			}
+			continue
+		}
+		fmt.Fprintf(m.log, "model query %s: %s\n", file, r.verdict)
+		m.failed = true
+		return false
+	}
+	m.ob.Model = r.output
+	out := r.output
+	if i := strings.Index(out, "("); i >= 0 {
+		out = out[i:]
+	}
+	es := parseSexps(out)
+	if len(es) == 0 || len(es[0].list) != len(all) {
+		fmt.Fprintf(m.log, "cannot parse get-value output (%d values for %d terms)\n", func() int {
+			if len(es) == 0 {
+				return 0
+			}
+			return len(es[0].list)
+		}(), len(all))
+		m.failed = true
+		return false
+	}
+	// a new run may give a different model: refresh everything
+	m.cache = map[*Term]modelVal{}
+	for k, pair := range es[0].list {
+		if len(pair.list) == 2 {
+			m.cache[all[k]] = parseModelVal(pair.list[1], m.x.c.bv)
+		}
+	}
+	return true
+}
+
+func (m *modelReader) intOf(t *Term) (int64, bool) {
+	if v, ok := m.x.c.litVal(t); ok {
+		return v.Int64(), true
+	}
+	v, ok := m.cache[t]
+	if !ok || !v.isInt {
+		return 0, false
+	}
+	if !v.i.IsInt64() {
+		return 0, false
+	}
+	return v.i.Int64(), true
+}
+
+// ---- building Go values ------------------------------------------------------------------------------
+
+type goBuilder struct {
+	m     *modelReader
+	x     *Exec
+	pkg   *types.Package
+	depth int
+	err   string
+}
+
+func (g *goBuilder) fail(format string, args ...interface{}) string {
+	if g.err == "" {
+		g.err = fmt.Sprintf(format, args...)
+	}
+	return "nil"
+}
+
+func (g *goBuilder) typeStr(t types.Type) string {
+	return types.TypeString(t, func(p *types.Package) string {
+		if p == g.pkg {
+			return ""
+		}
+		return p.Name()
+	})
+}
+
+// collect gathers the terms whose values are needed to build v (first level: scalars, lengths, refs).
+func (g *goBuilder) leafTerms(v Value, t types.Type) []*Term {
+	defer func() { recover() }()
+	return g.x.flatten(v, t)
+}
+
+// goValue renders the model's value of v (type t) as a Go expression. It may need several solver
+// runs (lengths first, then elements); need() batches them.
+func (g *goBuilder) goValue(v Value, t types.Type, st *State) string {
+	c := g.x.c
+	if g.depth > 4 {
+		return g.fail("value nesting too deep")
+	}
+	g.depth++
+	defer func() { g.depth-- }()
+	switch u := t.Underlying().(type) {
+	case *types.Basic:
+		switch {
+		case u.Info()&types.IsBoolean != 0:
+			tm := g.x.scalar(v)
+			if c.isTrue(tm) {
+				return "true"
+			}
+			if c.isFalse(tm) {
+				return "false"
+			}
+			g.m.values([]*Term{tm})
+			return strconv.FormatBool(g.m.cache[tm].b)
+		case u.Info()&types.IsInteger != 0:
+			tm := g.x.scalar(v)
+			g.m.values([]*Term{tm})
+			n, ok := g.m.intOf(tm)
+			if !ok {
+				return g.fail("no integer value for %s", c.Show(tm))
+			}
+			if u.Info()&types.IsUnsigned != 0 && n < 0 {
+				return fmt.Sprintf("%s(%d)", g.typeStr(t), uint64(n))
+			}
+			return fmt.Sprintf("%s(%d)", g.typeStr(t), n)
+		case u.Info()&types.IsFloat != 0:
+			tm := g.x.scalar(v)
+			g.m.values([]*Term{tm})
+			mv := g.m.cache[tm]
+			if !mv.isFP {
+				return g.fail("no float value for %s (%s)", c.Show(tm), mv.raw)
+			}
+			return fmt.Sprintf("math.Float64frombits(0x%x)", mv.bits)
+		case u.Info()&types.IsString != 0:
+			s := v.(StrV)
+			g.m.values([]*Term{s.Off, s.Len})
+			n, ok1 := g.m.intOf(s.Len)
+			if !ok1 || n < 0 || n > maxReplayLen {
+				return g.fail("string length %d not replayable", n)
+			}
+			content := g.x.strContent(s.Ref)
+			var ts []*Term
+			for k := int64(0); k < n; k++ {
+				ts = append(ts, c.Select(content, c.Add(s.Off, c.Int(k))))
+			}
+			g.m.values(ts)
+			var bs []string
+			for _, e := range ts {
+				b, _ := g.m.intOf(e)
+				bs = append(bs, fmt.Sprintf("%d", byte(b)))
+			}
+			str := "string([]byte{" + strings.Join(bs, ", ") + "})"
+			if t.String() != "string" {
+				return g.typeStr(t) + "(" + str + ")"
+			}
+			return str
+		}
+	case *types.Slice:
+		s := v.(SliceV)
+		g.m.values([]*Term{s.Arr, s.Off, s.Len})
+		arr, _ := g.m.intOf(s.Arr)
+		n, ok := g.m.intOf(s.Len)
+		if !ok || n < 0 || n > maxReplayLen {
+			return g.fail("slice length %d not replayable", n)
+		}
+		if arr == 0 {
+			return g.typeStr(t) + "(nil)"
+		}
+		var elems []string
+		for k := int64(0); k < n; k++ {
+			ev := g.x.loadPtr(st, PtrV{Kind: PElem, Base: s.Arr, Idx: c.Add(s.Off, c.Int(k)), Elem: u.Elem()}, u.Elem())
+			elems = append(elems, g.goValue(ev, u.Elem(), st))
+		}
+		return g.typeStr(t) + "{" + strings.Join(elems, ", ") + "}"
+	case *types.Struct:
+		sv := v.(StructV)
+		var fs []string
+		for k := 0; k < u.NumFields(); k++ {
+			ft := u.Field(k).Type()
+			if !replayableType(ft, 0) {
+				continue // left at its zero value
+			}
+			fs = append(fs, u.Field(k).Name()+": "+g.goValue(sv.F[k], ft, st))
+		}
+		return g.typeStr(t) + "{" + strings.Join(fs, ", ") + "}"
+	case *types.Pointer:
+		p, ok := v.(PtrV)
+		if !ok || p.Kind != PRef {
+			return g.fail("pointer value not replayable")
+		}
+		g.m.values([]*Term{p.Base})
+		r, _ := g.m.intOf(p.Base)
+		if r == 0 {
+			return "nil"
+		}
+		et := u.Elem()
+		inner := g.x.loadPtr(st, p, et)
+		if _, isStruct := et.Underlying().(*types.Struct); isStruct {
+			return "&" + g.goValue(inner, et, st)
+		}
+		return fmt.Sprintf("func() *%s { v := %s; return &v }()", g.typeStr(et), g.goValue(inner, et, st))
+	}
+	return g.fail("type %s not replayable", t)
+}
+
+func replayableType(t types.Type, depth int) bool {
+	if depth > 4 {
+		return false
+	}
+	switch u := t.Underlying().(type) {
+	case *types.Basic:
+		return u.Info()&(types.IsBoolean|types.IsInteger|types.IsFloat|types.IsString) != 0
+	case *types.Slice:
+		return replayableType(u.Elem(), depth+1)
+	case *types.Struct:
+		return true // non-replayable fields are left zero
+	case *types.Pointer:
+		if n, ok := u.Elem().(*types.Named); ok && n.Obj().Pkg() != nil && n.Obj().Pkg().Path() == "regexp" {
+			return false
+		}
+		return replayableType(u.Elem(), depth+1)
+	}
+	return false
+}
+
+// ---- contract expression -> Go --------------------------------------------------------------------------
+
+type goTrans struct {
+	x       *Exec
+	pkgName string
+	olds    []string // hoisted old() expressions (Go source)
+	results []string // names of result variables
+	resNames map[string]string
+	err     string
+	specs   map[string]bool
+	bound   map[string]bool
+}
+
+func (g *goTrans) fail(format string, args ...interface{}) string {
+	if g.err == "" {
+		g.err = fmt.Sprintf(format, args...)
+	}
+	return "false"
+}
+
+func substCE(e *CE, m map[string]*CE) *CE {
+	if e == nil {
+		return nil
+	}
+	if e.Op == "ident" {
+		if r, ok := m[e.Name]; ok {
+			return &CE{Op: "paren", Args: []*CE{r}}
+		}
+		return e
+	}
+	n := *e
+	n.Args = make([]*CE, len(e.Args))
+	for i, a := range e.Args {
+		n.Args[i] = substCE(a, m)
+	}
+	if len(e.Pats) > 0 {
+		n.Pats = nil // patterns are irrelevant for evaluation
+	}
+	// do not substitute bound variables
+	if e.Op == "forall" || e.Op == "exists" {
+		mm := map[string]*CE{}
+		for k, v := range m {
+			mm[k] = v
+		}
+		for _, v := range e.Vars {
+			delete(mm, v.Name)
+		}
+		n.Args = []*CE{substCE(e.Args[0], mm)}
+	}
+	return &n
+}
+
+func (g *goTrans) expr(e *CE, inOld bool) string {
+	switch e.Op {
+	case "paren":
+		return "(" + g.expr(e.Args[0], inOld) + ")"
+	case "int":
+		return e.Int
+	case "float":
+		return e.Str
+	case "bool":
+		return e.Name
+	case "string":
+		return strconv.Quote(e.Str)
+	case "nil":
+		return "nil"
+	case "ident":
+		if g.bound[e.Name] {
+			return e.Name
+		}
+		if r, ok := g.resNames[e.Name]; ok {
+			if inOld {
+				return g.fail("result inside old()")
+			}
+			return r
+		}
+		return e.Name
+	case "sel":
+		if e.Args[0].Op == "ident" && e.Args[0].Name == g.pkgName {
+			return e.Name // own package qualifier
+		}
+		return g.expr(e.Args[0], inOld) + "." + e.Name
+	case "index":
+		return g.expr(e.Args[0], inOld) + "[" + g.expr(e.Args[1], inOld) + "]"
+	case "slice":
+		lo, hi := "", ""
+		if e.Args[1] != nil {
+			lo = g.expr(e.Args[1], inOld)
+		}
+		if e.Args[2] != nil {
+			hi = g.expr(e.Args[2], inOld)
+		}
+		return g.expr(e.Args[0], inOld) + "[" + lo + ":" + hi + "]"
+	case "unary":
+		return "(" + e.Name + g.expr(e.Args[0], inOld) + ")"
+	case "binary":
+		a, b := g.expr(e.Args[0], inOld), g.expr(e.Args[1], inOld)
+		switch e.Name {
+		case "==>":
+			return "(!(" + a + ") || (" + b + "))"
+		case "<==>":
+			return "((" + a + ") == (" + b + "))"
+		}
+		return "(" + a + " " + e.Name + " " + b + ")"
+	case "old":
+		if inOld {
+			return g.expr(e.Args[0], true)
+		}
+		src := g.expr(e.Args[0], true)
+		for k, o := range g.olds {
+			if o == src {
+				return fmt.Sprintf("govcOld%d", k)
+			}
+		}
+		g.olds = append(g.olds, src)
+		return fmt.Sprintf("govcOld%d", len(g.olds)-1)
+	case "forall", "exists":
+		if len(e.Vars) != 1 || e.Vars[0].Type != "int" {
+			return g.fail("quantifier over %v not evaluable", e.Vars)
+		}
+		v := e.Vars[0].Name
+		saved := g.bound[v]
+		g.bound[v] = true
+		body := g.expr(e.Args[0], inOld)
+		g.bound[v] = saved
+		fn := "govcForall"
+		if e.Op == "exists" {
+			fn = "govcExists"
+		}
+		return fmt.Sprintf("%s(func(%s int) bool { return %s })", fn, v, body)
+	case "call":
+		var args []string
+		for _, a := range e.Args {
+			args = append(args, g.expr(a, inOld))
+		}
+		switch e.Name {
+		case "len", "cap", "min", "max", "float64":
+			return e.Name + "(" + strings.Join(args, ", ") + ")"
+		case "int64", "int":
+			return "int(" + strings.Join(args, ", ") + ")" // contract integers are Go ints in replays
+		case "isNaN":
+			return "math.IsNaN(" + args[0] + ")"
+		case "isInf":
+			return "math.IsInf(" + args[0] + ", 0)"
+		case "trunc":
+			return "math.Trunc(" + args[0] + ")"
+		case "ite":
+			return "govcIte(" + strings.Join(args, ", ") + ")"
+		case "sameview":
+			return "govcSameView(" + strings.Join(args, ", ") + ")"
+		case "samearr":
+			return "govcSameArr(" + strings.Join(args, ", ") + ")"
+		case "off":
+			return "govcOff(" + args[0] + ")"
+		case "same":
+			return "govcSame(" + strings.Join(args, ", ") + ")"
+		}
+		if p, ok := g.x.w.cs.preds[e.Name]; ok {
+			if len(p.Params) != len(e.Args) {
+				return g.fail("predicate arity")
+			}
+			m := map[string]*CE{}
+			for i, pr := range p.Params {
+				m[pr.Name] = e.Args[i]
+			}
+			return "(" + g.expr(substCE(p.Body, m), inOld) + ")"
+		}
+		if _, ok := g.x.w.cs.specs[e.Name]; ok {
+			g.specs[e.Name] = true
+			return "spec_" + e.Name + "(" + strings.Join(args, ", ") + ")"
+		}
+		return g.fail("function %s not evaluable in a replay", e.Name)
+	}
+	return g.fail("expression form %s not evaluable in a replay", e.Op)
+}
+
+const replayHelpers = `
+func govcForall(f func(int) bool) bool { for k := -4; k <= 600; k++ { if !f(k) { return false } }; return true }
+func govcExists(f func(int) bool) bool { for k := -4; k <= 600; k++ { if govcTry(f, k) { return true } }; return false }
+func govcTry(f func(int) bool, k int) (r bool) { defer func() { if recover() != nil { r = false } }(); return f(k) }
+func govcIte[T any](c bool, a, b T) T { if c { return a }; return b }
+func govcHdr(v any) (uintptr, int, bool) {
+	rv := reflect.ValueOf(v)
+	switch rv.Kind() {
+	case reflect.String:
+		return uintptr(unsafe.Pointer(unsafe.StringData(rv.String()))), rv.Len(), true
+	case reflect.Slice:
+		return rv.Pointer(), rv.Len(), true
+	}
+	return 0, 0, false
+}
+func govcSameView(a, b any) bool {
+	pa, la, _ := govcHdr(a); pb, lb, _ := govcHdr(b)
+	if la == 0 && lb == 0 { return true }
+	return pa == pb && la == lb
+}
+func govcSameArr(a, b any) bool {
+	pa, _, _ := govcHdr(a); pb, _, _ := govcHdr(b)
+	rb := reflect.ValueOf(b)
+	if rb.Kind() != reflect.Slice { return pa == pb }
+	sz := uintptr(1)
+	if rb.Type().Elem().Size() > 0 { sz = rb.Type().Elem().Size() }
+	return pa >= pb && pa <= pb+uintptr(rb.Cap())*sz
+}
+func govcOff(a any) int { p, _, _ := govcHdr(a); return int(p) }
+func govcSame(a, b any) bool {
+	ra, rb := reflect.ValueOf(a), reflect.ValueOf(b)
+	return govcSameV(ra, rb)
+}
+func govcNum(v reflect.Value) (float64, bool, bool) {
+	switch v.Kind() {
+	case reflect.Int, reflect.Int8, reflect.Int16, reflect.Int32, reflect.Int64:
+		return float64(v.Int()), true, false
+	case reflect.Uint, reflect.Uint8, reflect.Uint16, reflect.Uint32, reflect.Uint64:
+		return float64(v.Uint()), true, false
+	case reflect.Float32, reflect.Float64:
+		return v.Float(), true, true
+	}
+	return 0, false, false
+}
+func govcSameV(ra, rb reflect.Value) bool {
+	if na, ok, fa := govcNum(ra); ok {
+		nb, ok2, fb := govcNum(rb)
+		if !ok2 { return false }
+		if fa && fb { return math.Float64bits(na) == math.Float64bits(nb) || (math.IsNaN(na) && math.IsNaN(nb)) }
+		return na == nb
+	}
+	if ra.Kind() != rb.Kind() { return false }
+	switch ra.Kind() {
+	case reflect.String:
+		return ra.String() == rb.String()
+	case reflect.Bool:
+		return ra.Bool() == rb.Bool()
+	case reflect.Struct:
+		for i := 0; i < ra.NumField(); i++ { if !govcSameV(ra.Field(i), rb.Field(i)) { return false } }
+		return true
+	case reflect.Slice:
+		if ra.Len() != rb.Len() { return false }
+		for i := 0; i < ra.Len(); i++ { if !govcSameV(ra.Index(i), rb.Index(i)) { return false } }
+		return true
+	case reflect.Ptr:
+		return ra.Pointer() == rb.Pointer()
+	}
+	return false
+}
+`
+
+// ---- driver ------------------------------------------------------------------------------------------------
+
+// tryReplay replays a solver model on the real code (go test -overlay).
+func tryReplay(w *World, cfg runConfig, ob *Obligation) (res replayResult) {
+	var log strings.Builder
+	defer func() {
+		if r := recover(); r != nil {
+			fmt.Fprintf(&log, "replay generator gave up: %v\n", r)
+			res = replayResult{false, log.String()}
+		}
+	}()
+	x := ob.ctx
+	if x == nil || x.fn == nil || x.entry == nil {
+		return replayResult{false, "no replay: not a function-level obligation\n"}
+	}
+	fn := x.fn
+	if fn.Pkg == nil || fn.Parent() != nil {
+		return replayResult{false, "no replay: not a package-level function or method\n"}
+	}
+	dir := filepath.Join(cfg.outDir, "replay", cfg.prop, sanitize(ob.Name))
+	os.MkdirAll(dir, 0o755)
+	ob.SmallScope = x.smallScope(fn)
+	m := &modelReader{ob: ob, x: x, dir: dir, cache: map[*Term]modelVal{}, log: &log}
+	gb := &goBuilder{m: m, x: x, pkg: fn.Pkg.Pkg}
+	// inputs
+	var decls []string
+	var argNames []string
+	for _, p := range fn.Params {
+		if !replayableType(p.Type(), 0) {
+			return replayResult{false, fmt.Sprintf("no replay: parameter %s of type %s cannot be built from a model\n", p.Name(), p.Type())}
+		}
+	}
+	// two passes: the first run fixes lengths and references, the second adds element values
+	var built []string
+	for pass := 0; pass < 3; pass++ {
+		built = nil
+		gb.err = ""
+		for _, p := range fn.Params {
+			v := x.regs[p]
+			// parameters were overwritten if the function reassigns them: use the entry environment
+			if tv, ok := x.envFor(fn, x.entry, x.entry, nil).names[p.Name()]; ok {
+				v = tv.V
+			}
+			built = append(built, gb.goValue(v, p.Type(), x.entry))
+		}
+		if m.failed {
+			return replayResult{false, log.String() + "no replay: the model could not be read back\n"}
+		}
+	}
+	if gb.err != "" {
+		return replayResult{false, log.String() + "no replay: " + gb.err + "\n"}
+	}
+	for i, p := range fn.Params {
+		name := p.Name()
+		if name == "" || name == "_" {
+			name = fmt.Sprintf("arg%d", i)
+		}
+		argNames = append(argNames, name)
+		decls = append(decls, fmt.Sprintf("\t%s := %s\n\t_ = %s\n", name, built[i], name))
+	}
+	// the call
+	sig := fn.Signature
+	var call string
+	callArgs := argNames
+	if sig.Recv() != nil {
+		call = argNames[0] + "." + fn.Name() + "(" + strings.Join(argNames[1:], ", ") + ")"
+		callArgs = argNames[1:]
+	} else {
+		call = fn.Name() + "(" + strings.Join(callArgs, ", ") + ")"
+	}
+	gt := &goTrans{x: x, pkgName: fn.Pkg.Pkg.Name(), resNames: map[string]string{}, specs: map[string]bool{}, bound: map[string]bool{}}
+	var resVars []string
+	for k := 0; k < sig.Results().Len(); k++ {
+		rv := fmt.Sprintf("govcRes%d", k)
+		resVars = append(resVars, rv)
+		gt.resNames[fmt.Sprintf("result%d", k)] = rv
+		if k == 0 {
+			gt.resNames["result"] = rv
+		}
+		if n := sig.Results().At(k).Name(); n != "" && n != "_" {
+			gt.resNames[n] = rv
+		}
+	}
+	safety := false
+	switch ob.Kind {
+	case "bounds", "slice", "nilptr", "nonzero", "assert-type", "nilmap", "makeslice", "panic-unreachable":
+		safety = true
+	}
+	clauseGo := ""
+	var requiresGo []string
+	if !safety {
+		var cl *Clause
+		if x.fc != nil {
+			for i := range x.fc.Ensures {
+				if x.fc.Ensures[i].Text == ob.Clause {
+					cl = &x.fc.Ensures[i]
+				}
+			}
+		}
+		if cl == nil {
+			return replayResult{false, log.String() + fmt.Sprintf("no replay: obligations of kind %s are not replayed (clause %q)\n", ob.Kind, ob.Clause)}
+		}
+		clauseGo = gt.expr(cl.Expr, false)
+	}
+	if x.fc != nil {
+		for _, rq := range x.fc.Requires {
+			requiresGo = append(requiresGo, gt.expr(rq.Expr, true))
+		}
+	}
+	if gt.err != "" {
+		return replayResult{false, log.String() + "no replay: " + gt.err + "\n"}
+	}
+	// reference implementations of the spec functions used
+	refSrc := ""
+	for name := range gt.specs {
+		data, err := os.ReadFile(filepath.Join("/verif/spec/ref", name+".go.txt"))
+		if err != nil {
+			return replayResult{false, log.String() + fmt.Sprintf("no replay: no executable reference for spec function %s (/verif/spec/ref/%s.go.txt)\n", name, name)}
+		}
+		refSrc += string(data) + "\n"
+	}
+	var sb strings.Builder
+	fmt.Fprintf(&sb, "package %s\n\nimport (\n\t\"fmt\"\n\t\"math\"\n\t\"reflect\"\n\t\"testing\"\n\t\"unsafe\"\n)\n\nvar _ = math.Inf\nvar _ = reflect.ValueOf\nvar _ unsafe.Pointer\n", fn.Pkg.Pkg.Name())
+	sb.WriteString(replayHelpers)
+	sb.WriteString(refSrc)
+	fmt.Fprintf(&sb, "\n// replay of obligation %s\nfunc TestGovcReplay(t *testing.T) {\n", ob.Name)
+	for _, d := range decls {
+		sb.WriteString(d)
+	}
+	for k, rq := range requiresGo {
+		fmt.Fprintf(&sb, "\tif !govcTryB(func() bool { return %s }) {\n\t\tfmt.Println(\"GOVC-REPLAY: precondition %d does not hold on the model (spurious model)\")\n\t\treturn\n\t}\n", rq, k)
+	}
+	for k, o := range gt.olds {
+		fmt.Fprintf(&sb, "\tgovcOld%d := %s\n\t_ = govcOld%d\n", k, o, k)
+	}
+	sb.WriteString("\tdefer func() {\n\t\tif r := recover(); r != nil {\n\t\t\tfmt.Printf(\"GOVC-REPLAY: PANIC %v\\n\", r)\n\t\t}\n\t}()\n")
+	if len(resVars) > 0 {
+		fmt.Fprintf(&sb, "\t%s := %s\n", strings.Join(resVars, ", "), call)
+		for _, rv := range resVars {
+			fmt.Fprintf(&sb, "\t_ = %s\n", rv)
+		}
+	} else {
+		fmt.Fprintf(&sb, "\t%s\n", call)
+	}
+	for i, rv := range resVars {
+		fmt.Fprintf(&sb, "\tfmt.Printf(\"GOVC-REPLAY: result%d = %%#v\\n\", %s)\n", i, rv)
+	}
+	if safety {
+		sb.WriteString("\tfmt.Println(\"GOVC-REPLAY: NO-PANIC\")\n")
+	} else {
+		fmt.Fprintf(&sb, "\tif %s {\n\t\tfmt.Println(\"GOVC-REPLAY: HOLDS\")\n\t} else {\n\t\tfmt.Println(\"GOVC-REPLAY: VIOLATED\")\n\t}\n", clauseGo)
+	}
+	sb.WriteString("}\n\nfunc govcTryB(f func() bool) (r bool) { defer func() { if recover() != nil { r = false } }(); return f() }\n")
+	testSrc := sb.String()
+	// imports for package qualifiers used by the translated clause (e.g. compiler.Less)
+	extra := ""
+	for _, p := range w.pkgs {
+		if p.Types == fn.Pkg.Pkg {
+			for path, ip := range p.Imports {
+				n := ip.Name
+				if n == "fmt" || n == "math" || n == "reflect" || n == "testing" || n == "unsafe" || n == "" {
+					continue
+				}
+				body := testSrc[strings.Index(testSrc, "func TestGovcReplay"):]
+				if strings.Contains(body, n+".") {
+					extra += fmt.Sprintf("\t%q\n", path)
+				}
+			}
+		}
+	}
+	if extra != "" {
+		testSrc = strings.Replace(testSrc, "import (\n", "import (\n"+extra, 1)
+	}
+	testFile := filepath.Join(dir, "zz_govc_replay_test.go")
+	os.WriteFile(testFile, []byte(testSrc), 0o644)
+	pkgDir := ""
+	for _, p := range w.pkgs {
+		if p.Types == fn.Pkg.Pkg && len(p.GoFiles) > 0 {
+			pkgDir = filepath.Dir(p.GoFiles[0])
+		}
+	}
+	if pkgDir == "" {
+		return replayResult{false, log.String() + "no replay: package directory not found\n"}
+	}
+	ov := map[string]interface{}{"Replace": map[string]string{filepath.Join(pkgDir, "zz_govc_replay_test.go"): testFile}}
+	ovData, _ := json.Marshal(ov)
+	ovFile := filepath.Join(dir, "overlay.json")
+	os.WriteFile(ovFile, ovData, 0o644)
+	ctx, cancel := context.WithTimeout(context.Background(), 180*time.Second)
+	defer cancel()
+	cmd := exec.CommandContext(ctx, "go", "test", "-overlay", ovFile, "-vet=off", "-count=1", "-timeout", "60s", "-run", "^TestGovcReplay$", "-v", ".")
+	cmd.Dir = pkgDir
+	cmd.Env = append(os.Environ(), "GOFLAGS=-mod=mod", "GOPROXY=off", "GOSUMDB=off", "GOTOOLCHAIN=local")
+	out, _ := cmd.CombinedOutput()
+	fmt.Fprintf(&log, "replay test: %s\ncommand: (cd %s && go test -overlay %s -vet=off -count=1 -timeout 60s -run '^TestGovcReplay$' -v .)\n", testFile, pkgDir, ovFile)
+	fmt.Fprintf(&log, "inputs:\n")
+	for _, d := range decls {
+		log.WriteString(d)
+	}
+	outS := string(out)
+	if len(outS) > 6000 {
+		outS = outS[:6000] + "…\n"
+	}
+	fmt.Fprintf(&log, "output:\n%s\n", outS)
+	confirmed := false
+	switch {
+	case strings.Contains(string(out), "spurious model"):
+		log.WriteString("verdict: the solver's model does not satisfy the precondition on the real code (incomplete instantiation): not confirmed\n")
+	case safety && strings.Contains(string(out), "GOVC-REPLAY: PANIC"):
+		confirmed = true
+		log.WriteString("verdict: CONFIRMED, the real function panics on this input\n")
+	case !safety && strings.Contains(string(out), "GOVC-REPLAY: VIOLATED"):
+		confirmed = true
+		log.WriteString("verdict: CONFIRMED, the clause is false on the real function's result for this input\n")
+	case !safety && strings.Contains(string(out), "GOVC-REPLAY: PANIC"):
+		confirmed = true
+		log.WriteString("verdict: CONFIRMED (the real function panics on this input)\n")
+	default:
+		log.WriteString("verdict: not confirmed by the replay\n")
+	}
+	return replayResult{confirmed, log.String()}
+}
+
+var _ = ssa.NaiveForm
